@@ -9,6 +9,7 @@ its transports are closed; the acknowledgement reaches the remover.
 """
 from __future__ import annotations
 
+import asyncio
 import json
 import logging
 import uuid as uuidlib
@@ -30,6 +31,10 @@ TRUSTED = [
     "harness/ref/pairverify_client.py (independent controller, frame codec, HTTP reader), harness/ref/tlv8.py, generators",
     "removal through AccessoryDriver.unpair()/State.remove_paired_client() called by the application is outside the "
     "property (no acknowledgement exists) and not modelled",
+    "a restart is seen by the Sessions model as every connection going away with the pairing map kept (that the state file "
+    "carries the pairing map faithfully is C14/C15's subject); the harness performs it for real: real persist()/load() on a "
+    "state file, saves handed to the executor are carried out at once, AccessoryDriver.async_stop() runs for real with a stub "
+    "advertiser whose goodbye the harness holds open (shutdown window)",
     "sessions that are in the middle of a request at the moment of the removal (headers only / half a body / a pending delayed "
     "snapshot response) are produced by the generator and judged by the oracle only: the Sessions model has no per-connection "
     "request state (its teardown closes a connection whatever it is doing; a completed partial request is compared as one request)",
@@ -58,9 +63,26 @@ class LogTransport(c02.FakeTransport):
         super().close()
 
 
+class _GateAdvertiser:
+    """mDNS advertiser whose goodbye takes as long as the harness wants (the shutdown window)."""
+
+    def __init__(self, loop):
+        self.gate = loop.create_future()
+
+    async def async_unregister_service(self, _info):
+        await self.gate
+
+    async def async_close(self):
+        return None
+
+    async def async_update_service(self, _info):
+        return None
+
+
 class World16(c02.World):
-    def __init__(self, rng):
-        super().__init__(rng)
+    def __init__(self, rng, persist_file=None):
+        super().__init__(rng, persist_file)
+        self.stop_task = None
         acc = self.driver.accessory
         serv = acc.add_preload_service("Lightbulb")
         self.char = serv.get_characteristic("On")
@@ -75,6 +97,27 @@ class World16(c02.World):
             return await fut
 
         acc.async_get_snapshot = async_get_snapshot  # a camera whose snapshot takes as long as the harness wants
+
+    def begin_stop(self):
+        """The application calls AccessoryDriver.async_stop(): it runs up to the pending mDNS goodbye."""
+        from unittest.mock import MagicMock
+
+        d = self.driver
+        d.advertiser = _GateAdvertiser(self.loop)
+        d.aio_stop_event = asyncio.Event()
+        d.http_server.server = MagicMock()
+        d.http_server._connection_cleanup = MagicMock()  # noqa: SLF001  (the server was never started for real)
+        self.stop_task = self.loop.create_task(d.async_stop())
+        self.tick()
+
+    def end_stop(self):
+        """The goodbye is out: async_stop() goes on and closes the HAP server."""
+        if self.stop_task is None:
+            return
+        gate = self.driver.advertiser.gate
+        if not gate.done():
+            gate.set_result(None)
+        self.tick(8)
 
     def tick(self, n: int = 3):
         import asyncio as _a
@@ -214,7 +257,15 @@ class Runner16(c02.Runner):
         self.ctx = ctx
         self.script = script
         self.krng = random.Random(keyseed)
-        self.w = World16(self.krng)
+        self.persist_file = None
+        if any(op["op"] in ("restart", "stop_begin") for op in script):
+            import os
+            import tempfile
+
+            fd, self.persist_file = tempfile.mkstemp(prefix="verif-c16-", suffix=".state")
+            os.close(fd)
+            os.unlink(self.persist_file)  # a fresh accessory: the first save creates it
+        self.w = World16(self.krng, self.persist_file)
         self.sk = {j: rc.ed25519.Ed25519PrivateKey.from_private_bytes(self._rb(32)) for j in (0, 1, 2, 3, 9)}
         self.ref_paired = {}
         self.all_ex = []
@@ -232,7 +283,8 @@ class Runner16(c02.Runner):
     def uuid_of(self, i: int) -> uuidlib.UUID:
         return uuidlib.UUID(IDS[i])
 
-    def record(self, mop: Dict[str, Any], start: int, resp_classes: Dict[int, List[Any]], compare_events: bool = True):
+    def record(self, mop: Dict[str, Any], start: int, resp_classes: Dict[int, List[Any]], compare_events: bool = True,
+               live_override: Optional[List[int]] = None):
         """Turn the transport log slice of this op into the event list the model speaks."""
         events = []
         idx = {c: 0 for c in resp_classes}
@@ -250,7 +302,7 @@ class Runner16(c02.Runner):
         st = self.w.driver.state
         paired = sorted([u.bytes.hex(), hx(k), bool(st.is_admin(u))] for u, k in st.paired_clients.items())
         self.mops.append(mop)
-        self.impl.append({"events": events, "live": self.w.live(), "paired": paired})
+        self.impl.append({"events": events, "live": self.w.live() if live_override is None else live_override, "paired": paired})
 
     def currently_paired(self, u) -> bool:
         return u in self.ref_paired
@@ -346,6 +398,57 @@ class Runner16(c02.Runner):
         for req, (cls, dropped) in zip(reqs, classes):
             self.outcomes.append(f"{req['r']}-{_cl(cls)}" + ("-dropped" if dropped else ""))
         return classes
+
+    def run(self):
+        try:
+            return super().run()
+        finally:
+            if self.persist_file:
+                import os
+
+                try:
+                    os.unlink(self.persist_file)
+                except OSError:
+                    pass
+
+    # ---- shutdown and restart
+    def _model_closes(self, closed_now, note):
+        """Connections that vanished without the model doing it (server stopped / process gone): the model sees them as
+        peers going away; one extra no-op step carries the observables (pairing map after the event)."""
+        final = self.w.live()
+        rest = sorted(set(final) | set(closed_now))
+        for c in closed_now:
+            self.clock += 1
+            rest = [x for x in rest if x != c]
+            self.record({"op": "peerclose", "conn": c}, len(self.w.log), {}, compare_events=False, live_override=rest)
+        self.clock += 1
+        self.record({"op": "peerclose", "conn": 999}, len(self.w.log), {}, compare_events=False)
+        self.outcomes.append(note)
+
+    def op_stop_begin(self, n, op):
+        if self.w.stop_task is None:
+            self.w.begin_stop()
+            self.outcomes.append("stop-begun")
+
+    def op_stop_end(self, n, op):
+        w = self.w
+        if w.stop_task is None:
+            return
+        before = set(w.live())
+        w.end_stop()
+        self.busy.clear()
+        self._model_closes(sorted(before - set(w.live())), "stopped")
+
+    def op_restart(self, n, op):
+        """The accessory process ends (after a stop, or abruptly) and is started again from its state file."""
+        old = self.w
+        if old.stop_task is not None and not old.stop_task.done():
+            old.stop_task.cancel()
+        open_before = old.live()
+        old.close()
+        self.busy.clear()
+        self.w = World16(self.krng, self.persist_file)
+        self._model_closes(open_before, "restarted")
 
     # ---- sessions that are in the middle of a request
     def op_partial(self, n, op):
@@ -576,6 +679,11 @@ def FIN(c):
     return {"op": "finish", "conn": c}
 
 
+STOP_BEGIN = {"op": "stop_begin"}
+STOP_END = {"op": "stop_end"}
+RESTART = {"op": "restart"}
+
+
 def midreq(c, how):
     return SNAP(c) if how == "snapshot" else PART(c, how)
 
@@ -633,6 +741,24 @@ def boundary_scripts():
         # a mid-request session of a controller that STAYS paired is left alone and completes normally
         s.append([P(0), P(1, admin=False), P(2, admin=False), CN(0), CN(1), CN(2), S(0, 0), S(1, 1), S(2, 2),
                   midreq(2, how), RQ(0, rem(1)), *probes(1), FIN(2), RQ(2, prot(0))])
+    # ---- a controller that re-runs pair-verify on its own verified session and names SOMEBODY ELSE (refused): the session
+    # still belongs to the controller that proved itself, so its removal must cut it off
+    for how in ("verify", "force"):
+        for bogus_key in (9, 1):
+            s.append([P(0), P(1, admin=False), P(2, admin=False), CN(0), CN(1), CN(2), S(0, 0), S(1, 1, how), S(2, 2, how),
+                      S(1, 0, key=bogus_key), RQ(1, prot(0)), S(2, 1, key=9), RQ(0, rem(1)), *probes(1), RQ(2, prot(0)), RQ(0, rem(2)), *probes(2)])
+    s.append([P(0), P(1), CN(0), CN(1), S(0, 0), S(1, 1), S(1, 0, key=1), S(0, 1, key=9), RQ(1, rem(0)), *probes(0), RQ(1, prot(0)), RQ(1, LIST)])
+    # ---- removal, then the accessory is restarted from its state file: the removed controller stays out
+    s.append([P(0), P(1, admin=False), CN(0), CN(1), S(0, 0), S(1, 1), RQ(0, rem(1)), RESTART,
+              CN(2), S(2, 1), RQ(2, prot(0)), CN(3), S(3, 0), RQ(3, prot(0)), RQ(3, LIST)])
+    # the removal arrives while the accessory is shutting down (async_stop() waits for the mDNS goodbye), then restart
+    s.append([P(0), P(1, admin=False), CN(0), CN(1), S(0, 0), S(1, 1), STOP_BEGIN, RQ(0, rem(1)), *probes(1), RQ(0, prot(0)), STOP_END, RESTART,
+              CN(2), S(2, 1), RQ(2, prot(0)), CN(3), S(3, 0), RQ(3, LIST)])
+    s.append([P(0), P(1, admin=False), P(2, admin=False), CN(0), CN(1), CN(2), S(0, 0), S(1, 1), S(2, 2, "force"), STOP_BEGIN, RQ(0, rem(0)), STOP_END, RESTART,
+              CN(3), S(3, 1), RQ(3, prot(0)), CN(4), S(4, 2), CN(5), S(5, 0), P(3), CN(6), S(6, 1), RQ(6, prot(0))])
+    # abrupt end of the process right after the acknowledgement (no stop at all); an addition in the shutdown window survives too
+    s.append([P(0), P(1), P(2, admin=False), CN(0), CN(1), S(0, 0), S(1, 2), RQ(0, rem(2), rem(1)), RESTART, CN(2), S(2, 2), CN(3), S(3, 1), CN(4), S(4, 0), RQ(4, LIST)])
+    s.append([P(0), CN(0), S(0, 0), STOP_BEGIN, RQ(0, add(1)), STOP_END, RESTART, CN(1), S(1, 1), RQ(1, prot(0)), CN(2), S(2, 0), RQ(2, rem(1)), RESTART, CN(3), S(3, 1)])
     # removal of one of three, twice in a row (second is a no-op)
     s.append([P(0), P(1, admin=False), P(2, admin=False), CN(0), CN(1), CN(2), S(0, 0), S(1, 1), S(2, 2),
               RQ(0, rem(1), rem(1)), *probes(1), RQ(2, prot(0)), RQ(0, rem(2)), *probes(2), RQ(0, prot(0))])
@@ -662,6 +788,11 @@ def random_script(rng):
     if rng.random() < 0.3 and conns:
         k = rng.choice(list(conns))
         ops.append(RQ(k, prot(rng.randrange(5))))
+    if rng.random() < 0.35 and conns:
+        # a second pair-verify on a verified connection that names another controller and fails
+        for k in rng.sample(list(conns), min(len(conns), rng.choice([1, 1, 2]))):
+            other = rng.choice([i for i in range(n_ctl + 1) if i != conns[k]])
+            ops.append(S(k, other, key=rng.choice([9, conns[k]])))
     removed = []
     for _round in range(rng.choice([1, 1, 2])):
         live_admin = [k for k in admin_conns if conns[k] not in removed]
@@ -722,6 +853,18 @@ def random_script(rng):
                 ops += [CN(c), S(c, target), RQ(c, prot(0))]
                 conns[c] = target
                 c += 1
+    if rng.random() < 0.15:
+        # the accessory is restarted afterwards (optionally the last removal fell into the shutdown window)
+        last = max((k for k, o in enumerate(ops) if o["op"] == "req" and any(q["r"] == "remove" for q in o["reqs"])), default=None)
+        if last is not None and rng.random() < 0.6:
+            ops.insert(last, STOP_BEGIN)
+            ops.insert(last + 2 + rng.choice([0, 0, 1, 3]), STOP_END)
+        ops.append(RESTART)
+        for i in range(n_ctl):
+            ops += [CN(c), S(c, i)]
+            if rng.random() < 0.6:
+                ops.append(RQ(c, rng.choice([prot(0), prot(2), LIST])))
+            c += 1
     return ops
 
 
